@@ -522,3 +522,48 @@ func isTok(op token.Token, set ...token.Token) bool {
 }
 
 func sortStrings(s []string) { sort.Strings(s) }
+
+func splitOr(e ast.Expr) []ast.Expr {
+	e = unparen(e)
+	if b, ok := e.(*ast.BinaryExpr); ok && b.Op == token.LOR {
+		return append(splitOr(b.X), splitOr(b.Y)...)
+	}
+	return []ast.Expr{e}
+}
+
+func (c *Ctx) returnsConstBool(b *ast.BlockStmt, v bool) bool {
+	r := singleReturn(b)
+	return r != nil && len(r.Results) == 1 && c.isConstBool(r.Results[0], v)
+}
+
+// isCountOfVar: len(v.val), v.Count(), v.Ego().Count() for the local v of the container's own pointer type.
+func (c *Ctx) isCountOfVar(e ast.Expr, v types.Object, ct *Cont) bool {
+	if v == nil {
+		return false
+	}
+	call, ok := unparen(e).(*ast.CallExpr)
+	if !ok {
+		return false
+	}
+	if c.isBuiltin(call, "len") && len(call.Args) == 1 {
+		base, bct := c.spineBase(call.Args[0])
+		return bct == ct && c.obj(base) == v
+	}
+	if len(call.Args) != 0 {
+		return false
+	}
+	sel, ok := unparen(call.Fun).(*ast.SelectorExpr)
+	if !ok || !c.isLenAccessor(c.callee(call)) {
+		return false
+	}
+	x := unparen(sel.X)
+	if c.obj(x) == v {
+		return true
+	}
+	if inner, ok := x.(*ast.CallExpr); ok && len(inner.Args) == 0 {
+		if s2, ok := unparen(inner.Fun).(*ast.SelectorExpr); ok && c.obj(s2.X) == v && c.isEgoAccessor(c.callee(inner)) {
+			return true
+		}
+	}
+	return false
+}
